@@ -1,5 +1,6 @@
 import ScrapliModel.Auth
 import ScrapliModel.Channel.Ansi
+import ScrapliProps.C09Decor
 open Scrapli Scrapli.Auth
 
 def parseLoop : String → Option Loop
@@ -30,6 +31,26 @@ def parseRead (s : String) : Option Read :=
 def parseTape (s : String) : Option (List Read) :=
   if s == "." then some [] else (s.splitOn ",").mapM parseRead
 
+def hexOrDot (s : String) : Option Bytes := if s == "." then some [] else Hex.decode s
+
+/-- `r<n>@<t>` = a read of at most n bytes at time t; `i@<t>` = an empty read at time t -/
+def parseEv (s : String) : Option Ev :=
+  match s.splitOn "@" with
+  | [h, t] => do
+    let t ← t.toNat?
+    if h == "i" then pure (.idle t) else
+    if h.startsWith "r" then do
+      let n ← (h.drop 1).toNat?
+      pure (.read n t)
+    else none
+  | _ => none
+
+def parseSched (s : String) : Option (List Ev) :=
+  if s == "." then some [] else (s.splitOn ",").mapM parseEv
+
+def parseSegs (s : String) : Option (List Bytes) :=
+  if s == "-" then some [] else (s.splitOn ";").mapM hexOrDot
+
 def kindStr : Kind → String
   | .username => "U" | .password => "P" | .passphrase => "H" | .ret => "R"
 
@@ -53,6 +74,14 @@ def handleLine (line : String) : String :=
       let lg := if s.log.isEmpty then "." else ";".intercalate (s.log.map entryStr)
       s!"{statusStr s.status} {s.nread} {lg}"
     | _, _, _, _ => "bad-op"
+  | ["sys", l, p, ivl, g0, segs, onret, sched] =>
+    -- the CLOSED system of the theorems: loop + causal device (`Dev`) + schedule with empty reads, real cleaner
+    match parseLoop l, parseCfg p, ivl.toNat?, hexOrDot g0, parseSegs segs, hexOrDot onret, parseSched sched with
+    | some l, some mk, some ivl, some g0, some segs, some onret, some sched =>
+      let y := sysRunI (mk l ivl) g0 ⟨segs, onret⟩ sched
+      let lg := if y.s.log.isEmpty then "." else ";".intercalate (y.s.log.map entryStr)
+      s!"{statusStr y.s.status} {y.s.nread} {lg} {y.avail.length}"
+    | _, _, _, _, _, _, _ => "bad-op"
   | ["pred", h] =>
     match Hex.decode h with
     | some b =>
